@@ -1,6 +1,310 @@
-use crate::worker::Ctx;
+//! C15: depfiles.  Structured depfiles under all formattings are compared with
+//! their abstract content; all short strings over a 5-symbol alphabet (plus
+//! NUL/CR/UTF-8 variants) are checked for totality and sanity.
+
+use crate::worker::{catch, Ctx, Tier};
+use serde_json::{json, Value};
+use std::path::Path;
+use vcore::enumerate::{count_upto, for_range, shard_range};
+use vcore::refdepfile::{abstract_depfiles, for_formats, AbstractDepfile};
 use vcore::report::ShardResult;
 
-pub fn run(_ctx: &mut Ctx) -> ShardResult {
-    unimplemented!("engine depfile")
+const STR_ALPHA: &[&str] = &["a", " ", ":", "\\", "\n"];
+const ODD_ALPHA: &[&str] = &["a", "\0", "\r", "é", ":", " ", "\n", "\\"];
+
+pub fn jobs(tier: Tier) -> Vec<(String, u64)> {
+    vec![
+        ("depfile:formats".into(), 16),
+        ("depfile:repeat".into(), 4),
+        (format!("depfile:strings:{}", tier.pick(9, 10)), 16),
+        (format!("depfile:odd:{}", tier.pick(5, 6)), 8),
+        (format!("depfile:files:{}", tier.pick(6, 7)), 8),
+    ]
+}
+
+/// Jobs that belong to C12 (totality only).
+pub fn jobs_total(tier: Tier) -> Vec<(String, u64)> {
+    vec![
+        (format!("depfile:strings:{}", tier.pick(9, 10)), 16),
+        (format!("depfile:odd:{}", tier.pick(5, 6)), 8),
+    ]
+}
+
+fn families(tier: Tier) -> Vec<(Vec<AbstractDepfile>, Option<usize>)> {
+    vec![
+        // One entry, up to two prerequisites: every formatting.
+        (abstract_depfiles(1, 2, false), None),
+        // One entry with three prerequisites.
+        (
+            abstract_depfiles(1, 3, false)
+                .into_iter()
+                .filter(|d| d.entries[0].1.len() == 3)
+                .collect(),
+            Some(tier.pick(2, 3)),
+        ),
+        // Two entries, up to two prerequisites each.
+        (
+            abstract_depfiles(2, 2, false)
+                .into_iter()
+                .filter(|d| d.entries.len() == 2)
+                .collect(),
+            Some(tier.pick(2, 3)),
+        ),
+        // Three entries, up to one prerequisite each.
+        (
+            abstract_depfiles(3, 1, false)
+                .into_iter()
+                .filter(|d| d.entries.len() == 3)
+                .collect(),
+            Some(tier.pick(2, 3)),
+        ),
+    ]
+}
+
+fn check_structured(d: &AbstractDepfile, text: &str, job: &str, res: &mut ShardResult) {
+    res.evaluations += 1;
+    let path = Path::new("case.d");
+    std::fs::write(path, text).expect("write depfile");
+    let expected = d.expected();
+    let replay = || json!({"job": job, "text": text, "expected": expected});
+    match catch(|| n2::verif::verif_read_depfile(path)) {
+        Err(p) => res.violation(
+            &p.key(),
+            || format!("read_depfile panicked on {:?}: {} at {}", text, p.message, p.location),
+            replay,
+        ),
+        Ok(Err(e)) => res.violation(
+            "well-formed-depfile-rejected",
+            || format!("depfile {:?} (entries {:?}) was rejected: {}", text, d.entries, e),
+            replay,
+        ),
+        Ok(Ok(deps)) => {
+            if deps != expected {
+                let key = if d.has_repeated_target() {
+                    "repeated-target-loses-prerequisites"
+                } else {
+                    "deps-differ-from-listed-prerequisites"
+                };
+                res.violation(
+                    key,
+                    || format!("depfile {:?}: n2 discovered {:?}, listed prerequisites are {:?}", text, deps, expected),
+                    replay,
+                );
+            } else {
+                if !expected.is_empty() {
+                    res.nontrivial += 1;
+                }
+                res.outcome(&format!("ok-{}-entries-{}-deps", d.entries.len(), expected.len()));
+            }
+        }
+    }
+}
+
+fn check_string(text: &[u8], job: &str, res: &mut ShardResult) {
+    res.evaluations += 1;
+    let replay = || json!({"job": job, "bytes": text});
+    match catch(|| n2::verif::parse_depfile(text)) {
+        Err(p) => res.violation(
+            &p.key(),
+            || format!("depfile parser panicked on {:?}: {} at {}", String::from_utf8_lossy(text), p.message, p.location),
+            replay,
+        ),
+        Ok(Ok(entries)) => {
+            // Sanity: every reported word is a maximal blank-free piece of the
+            // input, in input order.
+            let mut pos = 0usize;
+            let upto = text.iter().position(|&c| c == 0).unwrap_or(text.len());
+            let hay = &text[..upto];
+            let mut ok = true;
+            for (_, deps) in &entries {
+                // (Targets are not used by n2; only prerequisites are checked.)
+                for w in deps.iter() {
+                    match find(hay, w.as_bytes(), pos) {
+                        Some(at) => pos = at + w.len(),
+                        None => ok = false,
+                    }
+                    if w.is_empty() || w.bytes().any(|c| c == b' ' || c == b'\n') {
+                        ok = false;
+                    }
+                }
+            }
+            if !ok {
+                res.violation(
+                    "parsed-words-not-from-input",
+                    || format!("depfile {:?} parsed to {:?}", String::from_utf8_lossy(text), entries),
+                    replay,
+                );
+            } else {
+                if entries.iter().any(|(_, d)| !d.is_empty()) {
+                    res.nontrivial += 1;
+                }
+                res.outcome(if entries.is_empty() { "ok-empty" } else { "ok-entries" });
+            }
+        }
+        Ok(Err(msg)) => {
+            if !msg.starts_with("parse error: ") || !msg.contains("depfile:") || !msg.ends_with("^\n") {
+                res.violation(
+                    "malformed-diagnostic",
+                    || format!("depfile {:?}: diagnostic {:?} lacks parse error / file:line / caret", String::from_utf8_lossy(text), msg),
+                    replay,
+                );
+            } else {
+                res.nontrivial += 1;
+                res.outcome(&format!("err:{}", crate::eng_total::class_of(&msg)));
+            }
+        }
+    }
+}
+
+fn find(hay: &[u8], needle: &[u8], from: usize) -> Option<usize> {
+    if needle.is_empty() || from > hay.len() {
+        return None;
+    }
+    hay[from..]
+        .windows(needle.len())
+        .position(|w| w == needle)
+        .map(|p| p + from)
+}
+
+/// Through the real file-reading path: Ok, or an error that names the file.
+fn check_file(text: &[u8], job: &str, res: &mut ShardResult) {
+    res.evaluations += 1;
+    let path = Path::new("sub/case.d");
+    std::fs::create_dir_all("sub").ok();
+    std::fs::write(path, text).expect("write depfile");
+    let replay = || json!({"job": job, "bytes": text});
+    match catch(|| n2::verif::verif_read_depfile(path)) {
+        Err(p) => res.violation(
+            &p.key(),
+            || format!("read_depfile panicked on {:?}: {}", String::from_utf8_lossy(text), p.message),
+            replay,
+        ),
+        Ok(Ok(deps)) => {
+            if !deps.is_empty() {
+                res.nontrivial += 1;
+            }
+            res.outcome("file-ok");
+        }
+        Ok(Err(e)) => {
+            let msg = e.to_string();
+            if !msg.contains("sub/case.d") || !msg.contains("parse error") {
+                res.violation(
+                    "error-does-not-name-depfile",
+                    || format!("malformed depfile {:?}: error {:?} does not name the depfile", String::from_utf8_lossy(text), msg),
+                    replay,
+                );
+            } else {
+                res.nontrivial += 1;
+                res.outcome("file-err-names-depfile");
+            }
+        }
+    }
+}
+
+pub fn run(ctx: &mut Ctx) -> ShardResult {
+    let mut res = ShardResult::default();
+    let job = ctx.job.clone();
+    if let Some(case) = &ctx.replay {
+        if let Some(text) = case.get("text").and_then(|t| t.as_str()) {
+            let expected: Vec<String> = case["expected"]
+                .as_array()
+                .map(|a| a.iter().map(|x| x.as_str().unwrap_or("").to_string()).collect())
+                .unwrap_or_default();
+            // Rebuild an abstract depfile that has the same expectation.
+            let d = AbstractDepfile {
+                entries: vec![("replayed".into(), expected)],
+            };
+            check_structured(&d, text, &job, &mut res);
+        } else {
+            let bytes: Vec<u8> = case["bytes"]
+                .as_array()
+                .map(|a| a.iter().map(|x| x.as_u64().unwrap_or(0) as u8).collect())
+                .unwrap_or_default();
+            if job.starts_with("depfile:files") {
+                check_file(&bytes, &job, &mut res);
+            } else {
+                check_string(&bytes, &job, &mut res);
+            }
+        }
+        return res;
+    }
+    let parts: Vec<&str> = job.split(':').collect();
+    match parts[1] {
+        "formats" | "repeat" => {
+            let fams = if parts[1] == "formats" {
+                families(ctx.tier)
+            } else {
+                vec![(
+                    abstract_depfiles(2, 2, true)
+                        .into_iter()
+                        .filter(|d| d.has_repeated_target())
+                        .collect(),
+                    Some(1),
+                )]
+            };
+            let mut idx = 0u64;
+            for (list, dev) in fams {
+                for d in &list {
+                    idx += 1;
+                    if idx % ctx.nshards != ctx.shard {
+                        continue;
+                    }
+                    let mut first = true;
+                    for_formats(d, dev, &mut |_, text| {
+                        ctx.marker.set(idx, text.as_bytes());
+                        check_structured(d, text, &job, &mut res);
+                        if first && idx % 97 == 0 {
+                            res.sample(|| json!({"entries": format!("{:?}", d.entries), "text": text}));
+                        }
+                        first = false;
+                    });
+                }
+            }
+            // A missing depfile counts as empty.
+            if ctx.shard == 0 {
+                res.evaluations += 1;
+                match catch(|| n2::verif::verif_read_depfile(Path::new("does/not/exist.d"))) {
+                    Ok(Ok(d)) if d.is_empty() => res.outcome("missing-file-empty"),
+                    other => res.violation(
+                        "missing-depfile-not-empty",
+                        || format!("missing depfile gave {:?}", other.map(|r| r.map_err(|e| e.to_string()))),
+                        || json!({"job": job, "bytes": []}),
+                    ),
+                }
+            }
+        }
+        "strings" | "odd" | "files" => {
+            let tokens = if parts[1] == "odd" { ODD_ALPHA } else { STR_ALPHA };
+            let max: u32 = parts[2].parse().expect("bound");
+            let k = tokens.len() as u64;
+            let total = count_upto(k, 0, max);
+            let (lo, hi) = shard_range(total, ctx.shard, ctx.nshards);
+            let mut buf = Vec::new();
+            for_range(k, 0, max, lo, hi, |idx, seq| {
+                if ctx.skip(idx) {
+                    return;
+                }
+                buf.clear();
+                for &s in seq {
+                    buf.extend_from_slice(tokens[s as usize].as_bytes());
+                }
+                ctx.marker.set(idx, &buf);
+                if parts[1] == "files" {
+                    check_file(&buf, &job, &mut res);
+                } else {
+                    check_string(&buf, &job, &mut res);
+                }
+                if idx % 300_007 == 0 {
+                    let b = buf.clone();
+                    res.sample(|| json!({"depfile": String::from_utf8_lossy(&b)}));
+                }
+            });
+        }
+        other => panic!("unknown depfile job {}", other),
+    }
+    res
+}
+
+pub fn case_from_marker(job: &str, bytes: &[u8]) -> Value {
+    json!({"job": job, "bytes": bytes})
 }
